@@ -1084,6 +1084,9 @@ func (c *cenv) call(e *ast.CallExpr) Val {
 			c2 := *c
 			c2.st = c.it0
 			c2.vars = map[string]Val{}
+			for k, v := range c.vars {
+				c2.vars[k] = v // SSA values named in the body are immutable: only the state differs
+			}
 			for k, v := range c.it0vars {
 				c2.vars[k] = v
 			}
@@ -1168,21 +1171,25 @@ func (c *cenv) call(e *ast.CallExpr) Val {
 		case "nonnilfn":
 			fval := c.fnValue(c.expr(e.Args[0]))
 			return bval(not(eq(fval.T, "LNil")))
-		case "freshit":
-			// allocated since the loop header snapshot
-			if c.it0 == nil {
-				return c.fail("freshit() only inside loop step clauses")
+		case "freshit", "freshloop":
+			// freshit: allocated since the loop header snapshot; freshloop: since the loop was entered
+			from := c.it0
+			if id.Name == "freshloop" {
+				from = c.pre
+			}
+			if from == nil {
+				return c.fail(id.Name + "() only inside loop clauses")
 			}
 			x := c.expr(e.Args[0])
 			switch x.K {
 			case KLoc:
-				return bval("(>= (root " + x.T + ") " + c.it0.alloc + ")")
+				return bval("(>= (root " + x.T + ") " + from.alloc + ")")
 			case KSlice:
-				return bval("(>= (root (sarr " + x.T + ")) " + c.it0.alloc + ")")
+				return bval("(>= (root (sarr " + x.T + ")) " + from.alloc + ")")
 			case KIface:
-				return bval("(>= (root (idat " + x.T + ")) " + c.it0.alloc + ")")
+				return bval("(>= (root (idat " + x.T + ")) " + from.alloc + ")")
 			}
-			return c.fail("freshit() of non-reference value")
+			return c.fail(id.Name + "() of non-reference value")
 		case "callresult":
 			// callresult(Method, i): i-th result of the latest call of interface method Method on this path
 			mid, ok1 := e.Args[0].(*ast.Ident)
